@@ -154,6 +154,8 @@ def step (st : WSt) (ws : List String) : Option (WSt × String) :=
   | "user" :: u :: au :: an :: rest =>
     let m := kv rest
     let user : User := { uid := u, auth := (unmarshalKeep 0 au).1, anon := (unmarshalKeep 0 an).1, suspended := kvGet m "state" = "susp" }
+    -- `state=missing`: the name of an account which is not there (any more); sessions may still claim it
+    if kvGet m "state" = "missing" then some (st, "ok") else
     some ({ st with w := { st.w with users := st.w.users ++ [user] } }, "ok")
   | "sess" :: s :: u :: lvl :: rest =>
     let sess : Sess := { sid := s, uid := u, lvl := levelOfStr lvl, bg := rest.contains "bg" }
